@@ -532,8 +532,9 @@ struct Life {
 
 impl Content {
     fn ranked(&self, k: KeyId) -> Vec<&Rec> {
-        // the harnesses use distinct timestamps per key, so rank = timestamp
-        let mut v: Vec<&Rec> = self.keys.get(&k).map_or(vec![], |v| v.iter().collect());
+        // rank = timestamp; on equal timestamps the record stored later comes first (it sits in
+        // the same or in a more recently created blob, behind the earlier one)
+        let mut v: Vec<&Rec> = self.keys.get(&k).map_or(vec![], |v| v.iter().rev().collect());
         v.sort_by(|a, b| b.ts.cmp(&a.ts));
         v
     }
